@@ -26,6 +26,7 @@ import (
 	"path/filepath"
 	"sort"
 	"strings"
+	"time"
 
 	"seehuhn.de/go/pdf"
 	"seehuhn.de/go/pdf/verifharness/common"
@@ -989,13 +990,28 @@ func (rn *run) placeholderCases() {
 	for _, v := range []pdf.Version{pdf.V1_1, pdf.V1_3, pdf.V1_4, pdf.V1_5, pdf.V1_6, pdf.V1_7, pdf.V2_0} {
 		for _, seek := range []bool{true, false} {
 			for _, early := range []bool{true, false} {
-				for _, nested := range []bool{false, true} {
-					info := map[string]any{"version": fmt.Sprint(v), "seekable": seek, "set_before_put": early, "string_inside_array": nested}
-					key := fmt.Sprintf("placeholder|%v|%v|%v|%v", v, seek, early, nested)
+				for _, valueKind := range []string{"string", "array-string", "array-textstring", "dict-date", "wrapper", "array-wrapper", "textstring"} {
+					info := map[string]any{"version": fmt.Sprint(v), "seekable": seek, "set_before_put": early, "value": valueKind}
+					key := fmt.Sprintf("placeholder|%v|%v|%v|%s", v, seek, early, valueKind)
 					m := marker(e, "placeholder")
+					date := pdf.Date(time.Date(1990+e.Rand.IntN(60), time.Month(1+e.Rand.IntN(12)), 1+e.Rand.IntN(28), e.Rand.IntN(24), e.Rand.IntN(60), e.Rand.IntN(60), 0, time.UTC))
+					if valueKind == "dict-date" {
+						m = []byte(date.AsPDF(0).(pdf.String)) // the text that must not be visible
+					}
 					value := func() pdf.Native {
-						if nested {
+						switch valueKind {
+						case "array-string":
 							return pdf.Array{pdf.Integer(1), pdf.String(append([]byte{}, m...))}
+						case "array-textstring":
+							return pdf.Array{pdf.Integer(1), pdf.TextString(string(m))}
+						case "dict-date":
+							return pdf.Dict{"ModDate": date}
+						case "wrapper":
+							return renderStr{m}.AsPDF(0)
+						case "array-wrapper":
+							return pdf.Array{renderStr{m}, pdf.Integer(2)}
+						case "textstring":
+							return pdf.TextString(string(m)).AsPDF(0)
 						}
 						return pdf.String(append([]byte{}, m...))
 					}
@@ -1046,11 +1062,9 @@ func (rn *run) placeholderCases() {
 					obj, _ := r.Get(ref, true)
 					d, _ := obj.(pdf.Dict)
 					s, _ := pdf.Resolve(r, d["S"])
-					var so pdf.Object = s
-					if a, ok := s.(pdf.Array); ok && len(a) == 2 {
-						so = a[1]
-					}
-					if got, _ := so.(pdf.String); !bytes.Equal(got, m) {
+					var found [][]byte
+					collectStrings(s, &found)
+					if len(found) != 1 || !bytes.Equal(found[0], m) {
 						e.Fail("placeholder-unreadable", "the placeholder's string does not read back", info)
 						continue
 					}
